@@ -1,1 +1,3 @@
--- stub: no theorems of C06 yet
+import WmModel.Props.C06
+#print axioms Wm.RouterLife.close_nil_means_quiet
+#print axioms Wm.RouterLife.no_start_after_close_nil
